@@ -13,6 +13,7 @@ case data:
   {'cfg': [ids, names, classes, tags], 'attrs': [a...], 'steps': [step...]}
   step = ['parse', node] | ['parsemulti', [node...]]
        | ['setattr', u, k, v] | ['delattr', u, k] | ['addclass', u, c] | ['rmclass', u, c] | ['append', u, node] | ['remove', u]
+       | ['appendmoved', u, node, old]  (the objects removed as `old` appended below u; the model sees a new subtree `node`)
        | ['addindex', a] | ['rmindex', a] | ['disable'] | ['reindex', o, o, o, o] | ['setroot', u]
        | ['query', ['P'] | ['P', u], op, useIndex]
   node as in C06; uids are allocated in creation order over the whole history (wrapper of a multi-root parse first).
@@ -72,6 +73,7 @@ class Pure(object):
         self.parsed = False
         # values that were in the document once and may be gone now: the stale entries an index must not keep
         self.retired = {'id': [], 'name': [], 'cls': [], 'tag': [], 'attr': []}
+        self.removed = set()        # elements taken out of the document (an 'appendmoved' step puts one back elsewhere)
 
     def _retire(self, n, deep=True):
         for x in (p_iter(n) if deep else [n]):
@@ -99,7 +101,13 @@ class Pure(object):
             self.dirty = False
         elif self.root is None:
             raise Pure.Invalid('nothing parsed')
-        elif k in ('setattr', 'delattr', 'addclass', 'rmclass', 'append', 'remove'):
+        elif k in ('setattr', 'delattr', 'addclass', 'rmclass', 'append', 'appendmoved', 'remove'):
+            if k == 'appendmoved':
+                # ['appendmoved', u, node, old]: the element objects removed as `old` are appended below u (to the model a new
+                # subtree; to the library the same objects, which may be remembered somewhere)
+                if st[3] not in self.removed:
+                    raise Pure.Invalid('appendmoved of an element that was not removed')
+                self.removed.discard(st[3])
             hit = p_find(self.root, st[1])
             if hit is None:
                 raise Pure.Invalid('unknown element')
@@ -124,12 +132,13 @@ class Pure(object):
             elif k == 'rmclass':
                 if st[2] in n['classes']:
                     n['classes'].remove(st[2])
-            elif k == 'append':
+            elif k in ('append', 'appendmoved'):
                 n['kids'].append(to_pnode(st[2], self.counter))
             elif k == 'remove':
                 if parent is None:
                     raise Pure.Invalid('cannot remove the root')
                 parent['kids'].remove(n)
+                self.removed.add(st[1])
         elif k in ('addindex', 'rmindex', 'disable'):
             # the property's histories: [index reconfiguration], reindex, queries
             self.dirty = True
@@ -238,6 +247,10 @@ class Run(object):
         elif k == 'remove':
             e = self.els[st[1]]
             e.parentNode.removeChild(e)
+        elif k == 'appendmoved':
+            sub = self.els[st[3]]           # the removed objects themselves; they are numbered anew, as the model numbers them
+            self.els[st[1]].appendChild(sub)
+            self._register(sub)
         elif k == 'addindex':
             p.addIndexOnAttribute(st[1])
         elif k == 'rmindex':
@@ -304,8 +317,8 @@ def enc_step(st, counter):
         return [k, st[1], enc(st[2]), enc(st[3])]
     if k in ('delattr', 'addclass', 'rmclass'):
         return [k, st[1], enc(st[2])]
-    if k == 'append':
-        return [k, st[1], c06.enc_node(st[2], counter)]
+    if k in ('append', 'appendmoved'):
+        return ['append', st[1], c06.enc_node(st[2], counter)]
     if k in ('remove', 'setroot'):
         return [k, st[1]]
     if k in ('addindex', 'rmindex'):
@@ -480,6 +493,25 @@ def gen_history(rng, max_steps=12, tier='quick'):
                 push(q)
     rounds = rng.choice((1, 1, 2))
     for _ in range(rounds):
+        moved = None
+        nodes = list(p_iter(pure.root))
+        if len(nodes) > 2 and rng.random() < 0.3:
+            # a subtree is taken out and the same element objects are appended elsewhere; the containers are asked before
+            # and after (an answer must come from where the elements are now)
+            x = rng.choice(nodes[1:])
+            inside = set(n['u'] for n in p_iter(x))
+            targets = [n for n in nodes if n['u'] not in inside]
+            v = rng.choice(targets)
+            par = p_find(pure.root, x['u'])[1]
+            xat = dict(map(tuple, x['attrs']))
+            q = rng.choice((['tag', x['tag']], ['tag', x['tag']]) + ((['cls', x['classes'][0]],) if x['classes'] else ())
+                           + ((['name', xat['name']],) if xat.get('name') else ()))
+            moved = (par['u'], v['u'], q)
+            if not pure.dirty:
+                for r in (par['u'], v['u'], pure.root['u']):
+                    push(['query', ['P', r], q, True])
+            push(['remove', x['u']])
+            push(['appendmoved', v['u'], p_to_c06(x), x['u']])
         for _ in range(rng.choice((0, 1, 2, 3, 4))):
             e = rand_edit(rng, pure, idx_attrs, fresh)
             if e is not None:
@@ -503,6 +535,11 @@ def gen_history(rng, max_steps=12, tier='quick'):
             push(['setroot', rng.choice(list(p_iter(pure.root))[1:])['u']])
         elif pure.dirty or r < 0.8:
             push(['reindex'] + [rng.choice((None, None, True, False)) for _ in range(4)])
+        if moved is not None and not pure.dirty:
+            for r in moved[:2]:
+                if p_find(pure.root, r) is not None:
+                    push(['query', ['P', r], moved[2], True])
+                    push(['query', ['P', r], moved[2], False])
         for q in doc_queries(rng, pure, rng.randint(2, 6), idx_attrs):
             push(q)
     return d
@@ -530,7 +567,8 @@ class Check(PropCheck):
     stream = 'C07'
     exhaustive_in = ('quick', 'thorough')
     rule = ('IndexedAdvancedHTMLParser histories: constructor flags x attribute indexes x (parse, [queries], [parse again, possibly '
-            'multi-root], [edits: set/remove id, name, class, attribute; append/remove subtrees], [addIndexOnAttribute / '
+            'multi-root], [edits: set/remove id, name, class, attribute; append/remove subtrees; a removed subtree appended elsewhere as '
+            'the same objects, its old and new container asked before and after], [addIndexOnAttribute / '
             'removeIndexOnAttribute / disableIndexing], reindex(with or without new flags) | setRoot, queries)*; queries '
             '(getElementsByTagName/ByName/ByClassName (1-4 names)/ByAttr/WithAttrValues, getElementById) over the document\'s '
             'vocabulary plus absent values, from the root and with root=<sub-element>, useIndex on/off. Exhaustive: all 16 flag '
